@@ -9,6 +9,7 @@ binary64 reading the driver runs.
 -/
 import Geodesy.Model.Registry
 import Mathlib.Tactic.SplitIfs
+import Geodesy.Lemmas.Honest
 
 namespace Geodesy
 namespace C10
@@ -275,6 +276,87 @@ theorem runFwd_n_le (sem : LeafSem R) (nan : R) (actionOf : ActionOf R) (steps :
         | (obtain ⟨k1, h1, h2⟩ := h _ _ _
            obtain ⟨k', h3, h4⟩ := ih _ k1 h1
            exact ⟨k', h3, Nat.le_trans h4 h2⟩)
+
+/-! ### whole operators: pipelines, nested pipelines, stack steps -/
+
+open HonestLemmas StackLemmas in
+/-- the shape of the state of a running pipeline over `N` operands: every stack column holds one
+value per operand, there are `N` operands, and the running minimum does not exceed `N` -/
+def PInv (N : Nat) (s : PState R) : Prop :=
+  StackLemmas.ColsOk N s.cols ∧ s.data.length = N ∧ ∀ k, s.n = some k → k ≤ N
+
+theorem record_inv {N : Nat} (s : PState R) (hs : PInv N s) (r : Stack.Cols R × Stack.Data R × Nat)
+    (hr : HonestLemmas.StepOk N r) : PInv N (s.record r.1 r.2.1 r.2.2) := by
+  refine ⟨hr.1, hr.2.1, ?_⟩
+  intro k hk
+  simp only [PState.record, Option.some.injEq] at hk
+  subst hk
+  cases hn : s.n with
+  | none => exact hr.2.2
+  | some k0 => exact Nat.le_trans (Nat.min_le_right _ _) hr.2.2
+
+/-- **Every operator — elementary, pipeline, nested pipeline, with stack steps, omitted steps and
+inverted steps, in either direction — returns as many tuples as it was given and never reports
+more successes than that**, provided its elementary operators do (`registry_honest`: every
+built-in does).  For all operator trees, all operand sets, all scalar readings. -/
+theorem pipeline_honest (sem : LeafSem R) (nan : R) (actionOf : ActionOf R)
+    (hsem : ∀ tag p dir, Honest (sem tag p dir)) (o : Op R) :
+    ∀ dir, Honest (Geodesy.apply sem nan actionOf o dir) := by
+  refine Op.rec
+    (motive_1 := fun o => ∀ dir, Honest (Geodesy.apply sem nan actionOf o dir))
+    (motive_2 := fun steps => ∀ N s, PInv N s →
+      PInv N (runFwd sem nan actionOf steps s) ∧ PInv N (runInv sem nan actionOf steps s))
+    ?_ ?_ ?_ o
+  · -- an operator: a pipeline runs its steps from the empty stack, anything else is elementary
+    intro node steps ih dir data
+    rw [Geodesy.apply]
+    simp only []
+    split
+    · have h0 : PInv data.length (⟨[], data, none⟩ : PState R) :=
+        ⟨fun c hc => (by cases hc), rfl, fun k hk => (by cases hk)⟩
+      obtain ⟨hf, hi⟩ := ih data.length _ h0
+      split
+      · refine ⟨hf.2.1, ?_⟩
+        split
+        · exact Nat.le_refl _
+        · rename_i k hk; exact hf.2.2 k hk
+      · refine ⟨hi.2.1, ?_⟩
+        split
+        · exact Nat.le_refl _
+        · rename_i k hk; exact hi.2.2 k hk
+    · exact hsem _ _ _ data
+  · intro N s hs
+    exact ⟨by simpa [runFwd] using hs, by simpa [runInv] using hs⟩
+  · intro step rest ihstep ihrest N s hs
+    constructor
+    · simp only [runFwd]
+      split
+      · exact (ihrest N s hs).1
+      · refine (ihrest N _ ?_).1
+        split
+        · exact record_inv s hs _ (HonestLemmas.legacyPush_ok _ _ _ hs.1 hs.2.1)
+        · exact record_inv s hs _ (HonestLemmas.legacyPop_ok _ _ _ _ hs.1 hs.2.1)
+        · exact record_inv s hs _ (HonestLemmas.fwd_ok _ _ _ _ hs.1 hs.2.1)
+        · exact record_inv s hs (s.cols, s.data, 0) ⟨hs.1, hs.2.1, Nat.zero_le _⟩
+        · have h := ihstep .fwd s.data
+          exact record_inv s hs (s.cols, _, _) ⟨hs.1, by rw [h.1, hs.2.1], by rw [← hs.2.1]; exact h.2⟩
+    · simp only [runInv]
+      have hs' := (ihrest N s hs).2
+      split
+      · exact hs'
+      · split
+        · exact record_inv _ hs' _ (HonestLemmas.legacyPop_ok _ _ _ _ hs'.1 hs'.2.1)
+        · exact record_inv _ hs' _ (HonestLemmas.legacyPush_ok _ _ _ hs'.1 hs'.2.1)
+        · exact record_inv _ hs' _ (HonestLemmas.inv_ok _ _ _ _ hs'.1 hs'.2.1)
+        · exact record_inv _ hs' (_, _, 0) ⟨hs'.1, hs'.2.1, Nat.zero_le _⟩
+        · have h := ihstep .inv (runInv sem nan actionOf rest s).data
+          exact record_inv _ hs' (_, _, _) ⟨hs'.1, by rw [h.1, hs'.2.1], by rw [← hs'.2.1]; exact h.2⟩
+
+/-- **the built-in operators composed in any way are honest** (the registry instance of
+`pipeline_honest`) -/
+theorem builtin_pipelines_honest (genv : Grid.GridEnv R) (nan : R) (actionOf : ActionOf R) (o : Op R) (dir : Dir) :
+    Honest (Geodesy.apply (Registry.sem R genv) nan actionOf o dir) :=
+  pipeline_honest _ nan actionOf (fun tag p dir => registry_honest genv tag p dir) o dir
 
 end C10
 end Geodesy
